@@ -154,7 +154,8 @@ func Forany[T any](pred func(T) bool, s []T) bool {
 }
 
 func PushLast[T any](elem T, s []T) []T {
-	return append(s, elem)
+	// cap the slice at its length so that append never writes into spare capacity shared with other slices.
+	return append(s[:len(s):len(s)], elem)
 }
 
 func PushHead[T any](elem T, s []T) []T {
